@@ -9,10 +9,10 @@ VERIF = os.path.dirname(os.path.dirname(os.path.abspath(__file__)))
 
 
 class Unit:
-    def __init__(self, name, files, spec, targets, props, stubs=(), typevars=None, ghost=None, lemmas=(), field_types=None, note='', aspect=None, builtins=()):
+    def __init__(self, name, files, spec, targets, props, stubs=(), typevars=None, ghost=None, lemmas=(), field_types=None, note='', aspect=None, builtins=(), class_bases=None):
         self.name, self.files, self.spec, self.targets, self.props = name, list(files), spec, list(targets), list(props)
         self.stubs, self.typevars, self.ghost, self.lemmas = list(stubs), dict(typevars or {}), dict(ghost or {}), list(lemmas)
-        self.field_types = dict(field_types or {}); self.note = note; self.aspect = aspect; self.builtins = list(builtins)
+        self.field_types = dict(field_types or {}); self.note = note; self.aspect = aspect; self.builtins = list(builtins); self.class_bases = dict(class_bases or {})
 
     def paths(self):
         return [os.path.join(PKG, f) for f in self.files] + [os.path.join(VERIF, 'stubs', f) for f in self.stubs]
@@ -24,13 +24,14 @@ class Unit:
             if x in tys: return tys[x]
             if x.startswith('list['): return E.ListT(ty(x[5:-1]))
             return E.Ref(x)
+        for cls, bs in self.class_bases.items(): prog.classes[cls].bases = list(bs)
         for cls, fs in self.ghost.items():
             for f, t in fs.items(): prog.classes[cls].fields[f] = ty(t)
         for cls, fs in self.field_types.items():
             for f, t in fs.items(): prog.classes[cls].fields[f] = ty(t); prog.classes[cls].field_defaults.setdefault(f, None)
         spec = E.Spec(os.path.join(VERIF, 'contracts', self.spec))
         from . import builtins as B
-        for b in self.builtins: spec.builtins[b] = B.REGISTRY[b]
+        for b in self.builtins: spec.builtins[b.split('#')[0]] = B.REGISTRY[b]
         ex = E.Exec(prog, spec); ex.aspect = self.aspect
         return prog, spec, ex
 
